@@ -12,12 +12,15 @@ The plugin writes the LPC files of every case into the run's mudlib copy (/c07/g
 `ld o pK` into `ld o /c07/g/<case>/pK` for the harness.
 """
 import hashlib
+import json
 import os
 import re
 import shutil
+import subprocess
 
 from nvlib import engine as E
 from nvlib.check import Prop
+from nvlib.extract import TieBroken
 
 MODS = ["-", "static", "private", "protected", "public"]
 
@@ -33,6 +36,9 @@ class AProg:
     def inherits(self):
         return [(it[1], it[2]) for it in self.items if it[0] == "i"]
 
+    def has_w(self):
+        return any(it[0] == "v" for it in self.items)
+
     def defs(self):
         return {it[2]: it for it in self.items if it[0] == "d"}
 
@@ -41,6 +47,8 @@ class AProg:
         for it in self.items:
             if it[0] == "d":
                 out.append("d:%s:%s:%s" % (it[1], it[2], "+".join(it[3]) or "-"))
+            elif it[0] == "v":
+                out.append("v:%s" % it[1])
             else:
                 out.append("%s:%s:%s" % it)
         return "prog %s %s" % (self.name, " ".join(out))
@@ -99,14 +107,18 @@ def lpc_source(g, P, base):
     var_done = False
     n_inh = len(P.inherits())
     seen_inh = 0
+    has_w = any(it[0] == "v" for it in P.items)
+    vdecl = "int v_%s;" % P.name + ("\nprivate int w;" if has_w else "")
     for it in P.items:
+        if it[0] == "v":
+            continue
         if it[0] == "i":
             mods = "" if it[1] == "-" else it[1].replace("_", " ") + " "
             out.append('%sinherit "%s/%s";' % (mods, base, it[2]))
             seen_inh += 1
             continue
         if seen_inh == n_inh and not var_done:
-            out.append("int v_%s;" % P.name)
+            out.append(vdecl)
             var_done = True
         mods = "" if it[1] == "-" else it[1].replace("_", " ") + " "
         if it[0] == "p":
@@ -122,10 +134,11 @@ def lpc_source(g, P, base):
                     par, fn = c[1:].split(".")
                     calls.append("%s::%s();" % ("" if par == "*" else par, fn))
             code = (fnum(P.name) + 1) * 100 + fnum(it[2])
-            out.append('%sstring %s() { VL("run %s:%s " + v_%s); v_%s = %d; %s return "%s:%s"; }'
-                       % (mods, it[2], P.name, it[2], P.name, P.name, code, " ".join(calls), P.name, it[2]))
+            wset = "w = %d; " % (code + 5000) if has_w else ""
+            out.append('%sstring %s() { VL("run %s:%s " + v_%s); v_%s = %d; %s%s return "%s:%s"; }'
+                       % (mods, it[2], P.name, it[2], P.name, P.name, code, wset, " ".join(calls), P.name, it[2]))
     if not var_done:
-        out.append("int v_%s;" % P.name)
+        out.append(vdecl)
     return "\n".join(out) + "\n"
 
 
@@ -142,9 +155,151 @@ def parse_graph(lines):
                     P.items.append(("d", f[1], f[2], [] if f[3] == "-" else f[3].split("+")))
                 elif f[0] in ("i", "p") and len(f) == 3:
                     P.items.append((f[0], f[1], f[2]))
+                elif f[0] == "v" and len(f) == 2:
+                    P.items.append(("v", f[1]))
             g[P.name] = P
             order.append(P.name)
     return g, order
+
+
+# --------------------------------------------------------------------------------------------
+# T4 for C07: the body of function_visible() (src/apply.c) is regenerated from the clang AST into NV/Gen/C07.lean.
+# Grammar accepted:  { switch (<param>) { (case K:)+ stmt* }* [default: stmt*]  }  return <int>; }
+#   stmt   ::=  break; | return <int>; | if (<expr>) return <int>;           (a non-empty group must end in break/return)
+#   expr   ::=  <param> | <int> | expr & expr | expr | expr | (expr) | !expr | expr == expr | expr != expr | expr && expr | expr || expr
+# Anything else is a broken tie (TieBroken) -> search stage.
+
+def _ast_of_function(bdir, relsrc, fn):
+    src = os.path.join(E.REPO, relsrc)
+    cmd = ["clang-14", "-Xclang", "-ast-dump=json", "-Xclang", "-ast-dump-filter=" + fn, "-fsyntax-only",
+           "-DHAVE_CONFIG_H", "-D_GNU_SOURCE", "-D" + E.GUARD, "-w"] + E.include_flags(bdir) + [src]
+    p = subprocess.run(cmd, capture_output=True, text=True)
+    if p.returncode != 0:
+        raise TieBroken("ast:" + fn, "clang cannot parse %s: %s" % (relsrc, p.stderr[-800:]))
+    dec = json.JSONDecoder()
+    s, i, found = p.stdout, 0, None
+    while i < len(s):
+        while i < len(s) and s[i].isspace():
+            i += 1
+        if i >= len(s):
+            break
+        o, i = dec.raw_decode(s, i)
+        if o.get("kind") == "FunctionDecl" and o.get("name") == fn and any(
+                c.get("kind") == "CompoundStmt" for c in o.get("inner", [])):
+            found = o
+    if found is None:
+        raise TieBroken("fn:" + fn, "function %s with a body not found in %s" % (fn, relsrc))
+    return found
+
+
+def _strip(n):
+    while n.get("kind") in ("ParenExpr", "ImplicitCastExpr", "ConstantExpr", "CStyleCastExpr") and n.get("inner"):
+        n = n["inner"][-1]
+    return n
+
+
+def _expr(n, params, site):
+    """C expression -> (lean text, is_bool)"""
+    n = _strip(n)
+    k = n.get("kind")
+    if k == "IntegerLiteral":
+        return str(int(n["value"])), False
+    if k == "DeclRefExpr":
+        nm = (n.get("referencedDecl") or {}).get("name")
+        if nm in params:
+            return nm, False
+        raise TieBroken(site, "reference to %s is outside the grammar" % nm)
+    if k == "UnaryOperator" and n.get("opcode") == "!":
+        t, b = _expr(n["inner"][0], params, site)
+        return ("(!%s)" % t) if b else ("(%s == 0)" % t), True
+    if k == "BinaryOperator":
+        op = n.get("opcode")
+        (a, ab), (b, bb) = _expr(n["inner"][0], params, site), _expr(n["inner"][1], params, site)
+        tob = lambda t, isb: t if isb else "(%s != 0)" % t
+        if op in ("&", "|") and not ab and not bb:
+            return "(%s %s %s)" % (a, {"&": "&&&", "|": "|||"}[op], b), False
+        if op in ("==", "!=") and not ab and not bb:
+            return "(%s %s %s)" % (a, op, b), True
+        if op in ("&&", "||"):
+            return "(%s %s %s)" % (tob(a, ab), op, tob(b, bb)), True
+    raise TieBroken(site, "expression node %s %s is outside the grammar" % (k, n.get("opcode", "")))
+
+
+def gen_function_visible(bdir):
+    site = "guard:function_visible"
+    fn = _ast_of_function(bdir, "src/apply.c", "function_visible")
+    params = [c["name"] for c in fn["inner"] if c.get("kind") == "ParmVarDecl"]
+    body = [c for c in fn["inner"] if c.get("kind") == "CompoundStmt"][0].get("inner", [])
+    if len(params) != 2 or len(body) != 2 or body[0].get("kind") != "SwitchStmt" or body[1].get("kind") != "ReturnStmt":
+        raise TieBroken(site, "function_visible is no longer `switch (..) {..} return k;`")
+
+    def ret_val(r):
+        v = _strip(r["inner"][0])
+        if v.get("kind") != "IntegerLiteral":
+            raise TieBroken(site, "return of a non-literal")
+        return "true" if int(v["value"]) != 0 else "false"
+
+    after = ret_val(body[1])
+    sw = body[0]["inner"]
+    cond, _ = _expr(sw[0], params, site)
+    if cond != params[0]:
+        raise TieBroken(site, "switch is not on the first parameter")
+    groups = []          # (labels or None for default, [stmts])
+    for st in sw[-1].get("inner", []):
+        k = st.get("kind")
+        if k in ("CaseStmt", "DefaultStmt"):
+            labels = []
+            cur = st
+            while cur.get("kind") in ("CaseStmt", "DefaultStmt"):
+                if cur["kind"] == "CaseStmt":
+                    lab = _strip(cur["inner"][0])
+                    if lab.get("kind") != "IntegerLiteral":
+                        raise TieBroken(site, "case label is not an integer constant")
+                    labels.append(int(lab["value"]))
+                    cur = cur["inner"][-1]
+                else:
+                    labels.append(None)
+                    cur = cur["inner"][-1]
+            if groups and groups[-1][1] and groups[-1][1][-1].get("kind") not in ("BreakStmt", "ReturnStmt"):
+                raise TieBroken(site, "fall-through out of a non-empty case group")
+            if groups and not groups[-1][1]:
+                labels = groups.pop()[0] + labels
+            groups.append((labels, [cur]))
+        else:
+            if not groups:
+                raise TieBroken(site, "statement before the first case label")
+            groups[-1][1].append(st)
+
+    def stmts(sts):
+        if not sts:
+            return after
+        st = sts[0]
+        k = st.get("kind")
+        if k == "BreakStmt":
+            return after
+        if k == "ReturnStmt":
+            return ret_val(st)
+        if k == "IfStmt" and len(st["inner"]) == 2 and st["inner"][1].get("kind") == "ReturnStmt":
+            c, isb = _expr(st["inner"][0], params, site)
+            c = c if isb else "(%s != 0)" % c
+            return "(if %s then %s else %s)" % (c, ret_val(st["inner"][1]), stmts(sts[1:]))
+        raise TieBroken(site, "statement %s is outside the grammar" % k)
+
+    default = after
+    lines = []
+    for labels, sts in groups:
+        if None in labels:
+            default = stmts(sts)
+        real = [l for l in labels if l is not None]
+        if real:
+            lines.append(("(" + " || ".join("%s == %d" % (params[0], l) for l in real) + ")", stmts(sts)))
+    text = "/-- GENERATED from the clang AST of `function_visible` (src/apply.c): the origin / flags decision of apply_low -/\n"
+    text += "def functionVisibleGen (%s %s : Nat) : Bool :=\n" % (params[0], params[1])
+    for c, r in lines:
+        text += "  if %s then %s else\n" % (c, r)
+    text += "  %s\n" % default
+    return text
+
 
 
 class C07(Prop):
@@ -154,12 +309,13 @@ class C07(Prop):
     theorems = ["NV.C07.visibility_table", "NV.C07.visibility_any_flags", "NV.C07.visibility_lifted",
                 "NV.C07.driver_origins_never_refused", "NV.C07.bsearch_correct", "NV.C07.find_function_correct",
                 "NV.C07.find_offsets_are_path_sums", "NV.C07.cache_transparent_step", "NV.C07.cache_transparent",
-                "NV.C07.frame_offsets_correct"]
+                "NV.C07.frame_offsets_correct", "NV.C07.built_alias_flags_agree", "NV.C07.inherit_flags_rule_is_spec"]
     witness_theorems = ["NV.C07.Witness.old_cache_not_transparent"]
     consts = [("applyCacheBits", "APPLY_CACHE_BITS"),
               ("nameInherited", "NAME_INHERITED"), ("nameUndefined", "NAME_UNDEFINED"),
               ("namePrototype", "NAME_PROTOTYPE"), ("nameDefByInherit", "NAME_DEF_BY_INHERIT"),
-              ("nameAlias", "NAME_ALIAS"), ("nameHidden", "NAME_HIDDEN"), ("nameStatic", "NAME_STATIC"),
+              ("nameAlias", "NAME_ALIAS"), ("nameStrictTypes", "NAME_STRICT_TYPES"), ("nameTrueVarargs", "NAME_TRUE_VARARGS"),
+              ("nameVarargs", "NAME_VARARGS"), ("nameHidden", "NAME_HIDDEN"), ("nameStatic", "NAME_STATIC"),
               ("nameNoMask", "NAME_NO_MASK"), ("namePrivate", "NAME_PRIVATE"), ("nameProtected", "NAME_PROTECTED"),
               ("namePublic", "NAME_PUBLIC"),
               ("originDriver", "ORIGIN_DRIVER"), ("originLocal", "ORIGIN_LOCAL"),
@@ -188,12 +344,22 @@ class C07(Prop):
             "copied name string), driver apply, call_out-origin apply and real call_out, with refused and non-existent names, "
             "cache clears and forced slot collisions; every case is run on the real driver, by the model on the dumped real "
             "tables and by the specification on the abstract graph; a case is non-trivial when at least one call ran a body")
-    not_covered = ["copy_functions / overload_function / compress_function_tables are not modelled: their output is validated "
-                   "per generated program (WF + three-way agreement), not proved",
-                   "heart_beat dispatch (prog->heart_beat index), simul_efun dispatch and efun function pointers are not exercised",
+    not_covered = ["the construction of the function tables (copy_functions, overload_function, define_new_function, epilog, "
+                   "copy_and_sort_function_table, operands of local / :: / function-pointer calls) IS modelled (NV/C07/Build.lean) and "
+                   "the model-built table must equal the real dumped table of every generated program, but `built_table_wf` and the "
+                   "full `built_flags_are_spec_visibility` are NOT proved for all programs: WF and the per-slot agreement with the "
+                   "specification are evaluated on every dumped table instead; proved are the epilog alias theorem and the "
+                   "one-level flag-inheritance table",
+                   "compress_function_tables / FIND_FUNC_ENTRY are validated as a round trip (model builds uncompressed entries, the "
+                   "harness dumps through FIND_FUNC_ENTRY), not modelled",
+                   "heart_beat dispatch (prog->heart_beat index), simul_efun dispatch, efun function pointers and function pointers "
+                   "evaluated by another object (ORIGIN_FUNCTIONAL, bound functions) are not exercised",
                    "varargs / argument count normalisation (setup_variables) is outside the model",
                    "program deallocation and reuse of a program_t address while a cache entry still names it",
                    "programs loaded from saved binaries (see C17)"]
+
+    def gen_extra(self, ctx, bdir):
+        return gen_function_visible(bdir)
 
     # ---- implementation side ---------------------------------------------------------------
     def prepare(self, ctx):
@@ -373,6 +539,9 @@ class C07(Prop):
                 fn = rng.choice(fpool)
                 if fn not in P.defs():
                     P.items.append(("p", rng.choice(MODS), fn))
+            if rng.chance(2, 5):
+                # a private variable with the SAME name `w` at every level that has it
+                P.items.append(("v", "private"))
         return g, order, fpool
 
     def gen_case(self, rng, cid):
@@ -419,6 +588,31 @@ class C07(Prop):
             try:
                 g, order = parse_graph(c.lines)
                 h["max_depth"] = max([h["max_depth"]] + [depth(g, n) for n in order])
+                for n in order:
+                    P = g[n]
+                    if P.has_w():
+                        h["programs_with_private_w"] = h.get("programs_with_private_w", 0) + 1
+                        if any(g[q].has_w() for _, q in P.inherits()):
+                            h["private_w_at_two_levels"] = h.get("private_w_at_two_levels", 0) + 1
+                    for it in P.items:
+                        if it[0] != "d":
+                            continue
+                        for x in it[3]:
+                            if x[0] != "S":
+                                continue
+                            par, fn = x[1:].split(".")
+                            for _, q in P.inherits():
+                                if par not in ("*", q):
+                                    continue
+                                r = resolve(g, q, fn)
+                                if r is None:
+                                    continue
+                                d = q
+                                for k in r:
+                                    d = g[d].inherits()[k][1]
+                                if "private" in g[d].defs()[fn][1]:
+                                    h["super_calls_to_private"] = h.get("super_calls_to_private", 0) + 1
+                                break
             except Exception:
                 pass
             for l in c.lines:
